@@ -89,6 +89,17 @@ theorem AwFrom.notifyPending (w : WorkerSt) (a t : Pid) (e : Pid → Pid → Val
   refine AwFrom.modProc w a _ _ ?_
   intro y t' v _ hm; exact Or.inl hm
 
+theorem AwFrom.release (w : WorkerSt) (cur : Pid) (e : Pid → Pid → Val → Prop) : AwFrom w (w.release cur) e := by
+  unfold WorkerSt.release
+  split
+  · refine AwFrom.modProc w cur _ _ ?_
+    intro y t' v _ hm
+    unfold Proc.releaseDead at hm
+    split at hm
+    · exact Or.inl hm
+    · cases hm
+  · exact AwFrom.refl w e
+
 theorem AwFrom.applyResults (a : Pid) : ∀ (rs : Results) (w : WorkerSt),
     AwFrom w (applyResults w a rs) (fun p t v => p = a ∧ (t, some (Res.ok v)) ∈ rs)
   | [], w => AwFrom.refl w _
@@ -199,7 +210,9 @@ theorem AwFrom.handleCmd (s : Sys) (i : Wid) (c : Cmd) :
     cases hx : (s.wk i).procs t with
     | none => simp only [handleCmdWith, hx, setWk_wk, upd_same]; exact AwFrom.wakeSelecting _ t _
     | some x =>
-      simp only [handleCmdWith, hx, setWk_wk, upd_same]
+      by_cases hd : (Cfg.releaseDead && !x.deliverable) = true
+      · simp only [handleCmdWith, hx, hd, if_true, setWk_wk, upd_same]; exact AwFrom.wakeSelecting _ t _
+      simp only [handleCmdWith, hx, hd, Bool.false_eq_true, if_false, setWk_wk, upd_same]
       exact (AwFrom.updProc (q := t) (y' := { x with mailbox := x.mailbox ++ [m] })
         (w' := { s.wk i with procs := upd (s.wk i).procs t (some { x with mailbox := x.mailbox ++ [m] }) }) rfl
         (fun t' v hm => Or.inl ⟨x, hx, hm⟩)).trans (AwFrom.wakeSelecting _ t _)
@@ -369,10 +382,11 @@ theorem TCore.envStep1 {s : Sys} (h : TCore s) (htr : Truthful s) (w : Wid) : TC
 theorem finish_resultOf_cur (w : WorkerSt) (cur : Pid) (x : Proc) (ordQ : List Pid) :
     (w.finish cur x ordQ).resultOf cur = some x.finalRes := by
   unfold WorkerSt.finish
+  dsimp only
   have h2 := ResKeep.foldl (fun acc a => acc.notifyResult a cur x.finalRes) (fun w' a => ResKeep.notifyResult w' a cur _)
     (orderBy ordQ (({ w with procs := upd w.procs cur (some { x with result := some x.finalRes }) } : WorkerSt).localAwaiters cur))
     { w with procs := upd w.procs cur (some { x with result := some x.finalRes }) }
-  exact h2 cur x.finalRes (by simp [WorkerSt.resultOf])
+  exact ResKeep.release _ cur cur x.finalRes (h2 cur x.finalRes (by simp [WorkerSt.resultOf]))
 
 /-- what `finish` stores: the result of `cur`, at its local awaiters -/
 theorem AwFrom.finish (w : WorkerSt) (cur : Pid) (x : Proc) (ordQ : List Pid)
@@ -383,6 +397,7 @@ theorem AwFrom.finish (w : WorkerSt) (cur : Pid) (x : Proc) (ordQ : List Pid)
   refine AwFrom.trans (AwFrom.updProc (w' := { w with procs := upd w.procs cur (some { x with result := some x.finalRes }) })
     (q := cur) (y' := { x with result := some x.finalRes }) rfl
     (fun t v hm => Or.inl (hx t v hm))) ?_
+  refine AwFrom.trans ?_ (AwFrom.release _ cur _)
   apply AwFrom.foldl
   intro w' a
   exact (AwFrom.notifyResult w' a cur x.finalRes).weaken (fun p t v ⟨_, h2, h3⟩ => ⟨h2, h3⟩)
